@@ -396,11 +396,15 @@ def build_script(broker: ScriptedBroker, sc: Dict[str, Any]) -> List[Any]:
         kind = sp["kind"]
         tname = sp.get("task") or {"sync": "stask", "shared": "shtask", "late": "latask", "dyn": "dyntask", "plaincls": "cltask"}.get(kind, "atask")
         labels = dict(sp.get("labels") or {})
+        late = dict(sp.get("late_labels") or {})
         if sp.get("timeout") is not None:
-            labels["timeout"] = sp["timeout"]
+            (late if sp.get("timeout_late") else labels)["timeout"] = sp["timeout"]
         args = sp.get("args", [i])
         kwargs = sp.get("kwargs") or ({"conn": "postgres://x"} if kind == "plaincls" else None)
         m = make_message(broker, tname, sp.get("dup_of", i), args, kwargs, labels)
+        # labels added after the client computed labels_types (what a pre_send middleware or a foreign producer does):
+        # they travel as plain JSON values without a type entry
+        m.labels.update(late)
         if kind == "unknown":
             m.task_name = "no.such.task"
         data = broker.formatter.dumps(m).message
